@@ -778,8 +778,8 @@ func genEnc(g *h.Gen) {
 	// 1b. the alias spellings encoding/all.go registers (8859-9, ISO-8859-9, SJIS, EUCJP, EUCKR, 646, ISO646, ASCII, UTF8): the
 	// name selects the same code page as the canonical spelling.  Single-byte code pages: every rune some single-byte
 	// charset has (the runes in which two such code pages can differ) plus the special runes; multi-byte ones: Latin /
-	// Greek / Cyrillic, the special runes and a stride through the CJK part of the BMP (thorough: what quick sweeps for the
-	// canonical names).
+	// Greek / Cyrillic, the special runes and a stride through the CJK part of the BMP (thorough: a denser stride, the whole
+	// single-byte repertoire).
 	aliases := refAliasesOf(c17Charsets)
 	perLine = 32 // scattered runes make short arithmetic runs: more of them per screen
 	for ai, al := range aliases {
@@ -791,18 +791,16 @@ func genEnc(g *h.Gen) {
 		for _, c := range special {
 			set[c] = true
 		}
+		stride, part := 47, 6
+		if g.Thorough() {
+			stride, part = 7, 1
+		}
 		switch {
-		case g.Thorough():
-			for c := 0x20; c < 0x10000; c++ {
-				if c < 0x3000 || c%7 == ai%7 {
-					set[c] = true
-				}
-			}
 		case refIsMulti(al):
 			for c := 0xa0; c < 0x500; c++ {
 				set[c] = true
 			}
-			for c := 0x3000 + ai%47; c < 0x10000; c += 47 {
+			for c := 0x3000 + ai%stride; c < 0x10000; c += stride {
 				set[c] = true
 			}
 		case !refIsUTF8(al) && !refIsASCII(al):
@@ -812,7 +810,7 @@ func genEnc(g *h.Gen) {
 			}
 			// … and a rotating slice of what the other single-byte code pages have
 			for k, c := range refSingleRepertoire() {
-				if k%6 == ai%6 {
+				if k%part == ai%part {
 					set[c] = true
 				}
 			}
